@@ -218,12 +218,18 @@ theorem enterPrevote_tp {cfg : Config} {σ : State} (T : TP cfg σ) (h r : Nat) 
 
 theorem enterPrecommit_tp {cfg : Config} {σ : State} (T : TP cfg σ) (h r : Nat) (hr : r ≤ σ.round) :
     TP cfg (enterPrecommit cfg h r σ) := by
-  unfold enterPrecommit
+  rw [enterPrecommit_le cfg h r σ hr]
   split
   · exact T
   · rename_i hg
     have hrr : r = σ.round := by omega
     exact T.to_step .precommit (by simp) (by simp [hrr]) rfl (by simp) (by simp) (Or.inr (Or.inl rfl))
+
+theorem enterPrecommit_tp' {cfg : Config} {σ : State} (T : TP cfg σ) (h r : Nat)
+    (hr : σ.step ≠ .commit → r ≤ σ.round) : TP cfg (enterPrecommit cfg h r σ) := by
+  by_cases hc : σ.step = .commit
+  · rw [enterPrecommit_commit cfg h r σ hc]; exact T
+  · exact enterPrecommit_tp T h r (hr hc)
 
 theorem enterPrevoteWait_tp {cfg : Config} {σ : State} (T : TP cfg σ) (h r : Nat) (hr : r ≤ σ.round) :
     TP cfg (enterPrevoteWait h r σ) := by
@@ -398,9 +404,18 @@ theorem enterNewRound_tp {cfg : Config} {σ : State} (T : TP cfg σ) (nb : Optio
   · exact T
   · rename_i hg
     have hh : h = σ.height := by omega
-    obtain ⟨extra, b1, b2, b3, b4, b5, -⟩ := newRoundPrep_spec cfg r σ
-    obtain ⟨c1, -⟩ := newRoundPrep_spec2 cfg r σ
+    obtain ⟨extra, b1', b2', b3', b4', b5', -⟩ := newRoundPrep_spec cfg r σ
+    obtain ⟨c1', -⟩ := newRoundPrep_spec2 cfg r σ
+    have b1 : (releaseStale cfg (newRoundPrep cfg r σ)).height = σ.height := by rw [releaseStale_height, b1']
+    have b2 : (releaseStale cfg (newRoundPrep cfg r σ)).round = r := by rw [releaseStale_round, b2']
+    have b3 : (releaseStale cfg (newRoundPrep cfg r σ)).step = .newRound := by rw [releaseStale_step, b3']
+    have b4 : (releaseStale cfg (newRoundPrep cfg r σ)).log = σ.log := by rw [releaseStale_log, b4']
+    have b5 : (releaseStale cfg (newRoundPrep cfg r σ)).sched = σ.sched := by rw [releaseStale_sched, b5']
+    have c1 : (releaseStale cfg (newRoundPrep cfg r σ)).ttp = false := by rw [releaseStale_ttp, c1']
     have hr1 : 1 ≤ r := by have := T.r1; omega
+    by_cases hcm : σ.step = .commit
+    · rw [if_pos hcm]; exact T
+    rw [if_neg hcm]
     simp only
     split
     · rename_i hw
@@ -408,19 +423,19 @@ theorem enterNewRound_tp {cfg : Config} {σ : State} (T : TP cfg σ) (nb : Optio
       split
       · rename_i he
         refine ⟨?_, ?_, ?_, ?_, ?_, ?_, ?_⟩
-        · show (newRoundPrep cfg r σ).step = _ → _; rw [b3]; intro hc; cases hc
+        · show (releaseStale cfg (newRoundPrep cfg r σ)).step = _ → _; rw [b3]; intro hc; cases hc
         · intro _
           refine ⟨hw.1, ?_, fun _ => ?_⟩
-          · show (newRoundPrep cfg r σ).round = 1; rw [b2]; exact hw.2
-          · show ((newRoundPrep cfg r σ).height, (newRoundPrep cfg r σ).round, Step.newRound) ∈
-              (h, r, Step.newRound) :: (newRoundPrep cfg r σ).sched
+          · show (releaseStale cfg (newRoundPrep cfg r σ)).round = 1; rw [b2]; exact hw.2
+          · show ((releaseStale cfg (newRoundPrep cfg r σ)).height, (releaseStale cfg (newRoundPrep cfg r σ)).round, Step.newRound) ∈
+              (h, r, Step.newRound) :: (releaseStale cfg (newRoundPrep cfg r σ)).sched
             rw [b1, b2, hh]
             exact List.mem_cons_self ..
-        · show (newRoundPrep cfg r σ).step = _ → _; rw [b3]; intro hc; cases hc
-        · show (newRoundPrep cfg r σ).step = _ → _; rw [b3]; intro hc; cases hc
-        · show (newRoundPrep cfg r σ).ttp = true → _; rw [c1]; intro hc; cases hc
-        · show (newRoundPrep cfg r σ).step ≠ _; rw [b3]; intro hc; cases hc
-        · show 1 ≤ (newRoundPrep cfg r σ).round; rw [b2]; exact hr1
+        · show (releaseStale cfg (newRoundPrep cfg r σ)).step = _ → _; rw [b3]; intro hc; cases hc
+        · show (releaseStale cfg (newRoundPrep cfg r σ)).step = _ → _; rw [b3]; intro hc; cases hc
+        · show (releaseStale cfg (newRoundPrep cfg r σ)).ttp = true → _; rw [c1]; intro hc; cases hc
+        · show (releaseStale cfg (newRoundPrep cfg r σ)).step ≠ _; rw [b3]; intro hc; cases hc
+        · show 1 ≤ (releaseStale cfg (newRoundPrep cfg r σ)).round; rw [b2]; exact hr1
       · rename_i he
         refine ⟨?_, ?_, ?_, ?_, ?_, ?_, ?_⟩
         · rw [b3]; intro hc; cases hc
@@ -441,16 +456,16 @@ theorem enterNewRound_tp {cfg : Config} {σ : State} (T : TP cfg σ) (nb : Optio
         simp [Step.toNat] at hg2
         omega
       · apply proposeDone_tp
-        obtain ⟨a1, a2, a3, a4, a5, a6, a7⟩ := proposeBody_spec cfg nb h r (newRoundPrep cfg r σ)
+        obtain ⟨a1, a2, a3, a4, a5, a6, a7⟩ := proposeBody_spec cfg nb h r (releaseStale cfg (newRoundPrep cfg r σ))
         refine ⟨?_, ?_, ?_, ?_, ?_, ?_, hr1⟩
         · intro hc; cases hc
         · intro hc; cases hc
-        · intro _; show (_, _, _) ∈ (proposeBody cfg nb h r (newRoundPrep cfg r σ)).sched
+        · intro _; show (_, _, _) ∈ (proposeBody cfg nb h r (releaseStale cfg (newRoundPrep cfg r σ))).sched
           rw [a5, a1, b1, hh]; exact List.mem_cons_self ..
         · intro hc; cases hc
         · intro ht
           exfalso
-          have : (proposeBody cfg nb h r (newRoundPrep cfg r σ)).ttp = true := ht
+          have : (proposeBody cfg nb h r (releaseStale cfg (newRoundPrep cfg r σ))).ttp = true := ht
           rw [a4, c1] at this; cases this
         · intro hc; cases hc
 
@@ -528,7 +543,7 @@ theorem afterPrecommit_tp {cfg : Config} {σ : State} (T : TP cfg σ) (nb : Opti
   simp only
   split
   · have J1 := enterNewRound_tp T nb σ.height vr
-    have J2 := enterPrecommit_tp J1 σ.height vr (enterNewRound_round_ge cfg nb vr σ)
+    have J2 := enterPrecommit_tp' J1 σ.height vr (enterNewRound_round_ge' cfg nb vr σ)
     split
     · exact enterCommit_tp J2 _ _
     · exact enterPrecommitWait_tp J2 _ _
